@@ -242,7 +242,7 @@ func c17Run(c *harness.Check, cs respCase) string {
 			}
 		} else {
 			needs := []string{msg, ferr.Filepath(), fmt.Sprint(ferr.Line())}
-			if _, exists := cs.Files[cs.Page]; exists {
+			if _, exists := cs.Files[cs.Page]; exists && ferr.Filepath() != "" {
 				// every generated fault is written in the page's own file
 				needs = append(needs, pageAbs)
 			}
@@ -318,7 +318,7 @@ func c17Page(rt *rapid.T) (files map[string]string, page string, markers []strin
 
 func TestC17_Configurations(t *testing.T) {
 	c := harness.New(t, "C17", "configurations",
-		"all combinations of {debug on, off} x {no custom error page, a working one, one that does not exist, one that fails at run time} x generated pages {succeeding (plain, with layout and component); failing at run time after 1..4 uniquely marked chunks at top level, inside a loop pass, inside a layout's insert, inside a component argument, inside a slot body, after a registered function has rendered another template of the directory (working, failing, missing) through Response; not existing} x data: success -> nil and body == String(); failure -> non-nil error, no marker of the failed page in the body, body == custom page (working one, debug off) / empty (custom page itself fails, debug off) / built-in page (rendered differentially from default-error-page.tw with the failure's fields); debug off -> neither message nor any path in the body; debug on -> message, path and line in it (the path being that of the page's own file, where every generated fault is written). In one case in six some of the files (the page, the custom error page, the component, the layout) are symbolic links to regular files kept outside the directory. One case in eight uses no configuration at all (NewTemplate(nil) over templates/*.tw.html): the documented defaults, debug off and no custom page, apply. Non-trivial: failing page and a non-default configuration, or the defaults. Distinct by hash.")
+		"all combinations of {debug on, off} x {no custom error page, a working one, one that does not exist, one that fails at run time} x generated pages {succeeding (plain, with layout and component); failing at run time after 1..4 uniquely marked chunks at top level, inside a loop pass, inside a layout's insert, inside a component argument, inside a slot body, because of the data (a value of an unsupported kind or the reserved key loop: failures without a file path), after a registered function has rendered another template of the directory (working, failing, missing) through Response; not existing} x data: success -> nil and body == String(); failure -> non-nil error, no marker of the failed page in the body, body == custom page (working one, debug off) / empty (custom page itself fails, debug off) / built-in page (rendered differentially from default-error-page.tw with the failure's fields); debug off -> neither message nor any path in the body; debug on -> message, path and line in it (the path being that of the page's own file, where every generated fault is written). In one case in six some of the files (the page, the custom error page, the component, the layout) are symbolic links to regular files kept outside the directory. One case in eight uses no configuration at all (NewTemplate(nil) over templates/*.tw.html): the documented defaults, debug off and no custom page, apply. Non-trivial: failing page and a non-default configuration, or the defaults. Distinct by hash.")
 	defer c.Finish()
 	runRapid(t, c, 3000, 30000, func(rt *rapid.T) {
 		files, page, markers, fails, note := c17Page(rt)
@@ -350,6 +350,18 @@ func TestC17_Configurations(t *testing.T) {
 					cs.Linked = append(cs.Linked, n)
 				}
 			}
+		}
+		if !fails && rapid.IntRange(0, 3).Draw(rt, "badData") == 0 {
+			// the page is sound, the data is not: a value of an unsupported kind (at the top or nested)
+			// or the reserved key; such failures carry no file path
+			bad := rapid.SampledFrom([]*spec.Value{spec.Unsupported(spec.TChan), spec.Unsupported(spec.TFunc), spec.Slice(spec.T(spec.TAny), spec.Any(spec.Unsupported(spec.TComplex))), spec.Unsupported(spec.TIntMap)}).Draw(rt, "badValue")
+			key := rapid.SampledFrom([]string{"zbad", "loop", "aaa"}).Draw(rt, "badKey")
+			if key == "loop" {
+				bad = spec.IntOf(spec.TInt, 1)
+			}
+			cs.Data = specData(map[string]any{"name": "Ann"}).Add(key, bad)
+			cs.Fails, fails = true, true
+			cs.Note, note = note+"+bad-data", note+"+bad-data"
 		}
 		nt := fails && (cs.Debug || cs.Custom != "none" || cs.Defaults)
 		c.Case(nt, mustJSON(cs), "shape:"+note, "custom:"+cs.Custom, fmt.Sprintf("debug:%v", cs.Debug), fmt.Sprintf("defaults:%v", cs.Defaults), fmt.Sprintf("symlinked-files:%d", len(cs.Linked)))
